@@ -81,3 +81,16 @@ Theorem C07_build_sched_cert : forall c caps cmin reuse strip so, wf_netlist c -
   sched_check (stemmed (so_stems so)) (so_nlines so + 1) (split_levels (so_level_starts so) (so_ops so) 0) = true /\
   sched_check (so_alias c so) (so_nlines so + 1) (split_levels (so_level_starts so) (so_ops so) 0) = true.
 Proof. exact KV.Proofs.StripSchedule.build_sched_cert. Qed.
+
+(** Source tie (T) for the launcher (see C06_launcher_source_is_model): the loop nest translated from the current text of
+    MockCuda.jit runs every in-range (simulation, operation) thread exactly once. *)
+From KV Require Import Model.LaunchSrcLib Gen.LaunchSrc.
+From KV Require Proofs.LaunchSrcProofs.
+From Coq Require Import Bool.
+Theorem C07_launcher_source_is_model :
+  (forall gx gy bx by_ st, fst (launch_src gx gy bx by_ st) = launch gx gy bx by_) /\
+  (forall X Y bx by_ st, 0 < bx -> 0 < by_ ->
+     let run := filter (fun p => Nat.ltb (fst p) X && Nat.ltb (snd p) Y)%bool (fst (launch_src (cdiv X bx) (cdiv Y by_) bx by_ st)) in
+     NoDup run /\ (forall x y, In (x, y) run <-> (x < X /\ y < Y))).
+Proof. exact KV.Proofs.LaunchSrcProofs.launcher_source_is_model. Qed.
+Print Assumptions C07_launcher_source_is_model.
